@@ -514,6 +514,7 @@ package module
 //@ axiom pseudo_version_pattern(v string)
 //@   ensures pseudoVersionRE.MatchString(v) == REPV(v)
 //@   trigger pseudoVersionRE.MatchString(v)
+//@   anchor "module/pseudo.go" "var pseudoVersionRE = lazyregexp.New(`^v[0-9]+\\.(0\\.0-|\\d+\\.\\d+-([^+]*\\.)?0\\.)\\d{14}-[A-Za-z0-9]+(\\+[0-9A-Za-z-]+(\\.[0-9A-Za-z-]+)*)?$`)"
 //@   reason "library behaviour: the regexp engine applied to the pattern of pseudoVersionRE, transcribed position by position as REPV (a Go twin of REPV agrees with the real regexp on 600000 generated strings: /verif/tools/repvchk)"
 
 //@ spec func PSEUDO(v string) bool = strings.Count(v, "-") >= 2 && VALID(v) && REPV(v)
